@@ -9,7 +9,7 @@ CONSTANTS SlotDur = 3
  MaxJump = 2
  BVariants = {1, 2}
  AttOffs = {0, 1}
- ProMenu = {1, 2}
+ ProMenu = {2}
  SyncMenu = {2}
  Starts = {0, 4}
 INVARIANTS AtMostOnce OnlyAssigned NotEarly TickOrder TickNotEarly Complete TruthOK TickFresh
